@@ -61,4 +61,3 @@ func vc_getValuesFromRow_ensures_shape(tc *tableCache, rs *replication.Rows, row
 	}
 	return err == nil && out != nil && len(out.Columns) == rs.DataColumns.Count()
 }
-
